@@ -16,5 +16,5 @@ run_demo() {
 echo -n "WITHOUT: "; run_demo
 git apply "$d/patch.diff"
 echo -n "WITH:    "; run_demo
-echo -n "BASELINE with change: "; go test -vet=off -count=1 ./... 2>&1 | grep -c "^FAIL\|^--- FAIL" 
+echo -n "BASELINE with change: "; go test -vet=off -count=1 $(go list ./... 2>/dev/null | grep -v /SEEDED) 2>&1 | grep -c "^FAIL\|^--- FAIL" 
 git checkout -q -- .
